@@ -461,13 +461,43 @@ def lp_kernel_ob(tier):
                        "(any edge may be a reversed one after cycle breaking)" % grid)
 
 
+def deep_dags(maxn):
+    """structured deep DAGs (edge lists): chains, chains written tail-first, combs (a leaf under every 3rd spine node), chains with shortcut edges --
+    graphs whose recursion / work-list depth passes the slice-capacity boundaries 8, 16, 32 that small enumerated shapes never reach"""
+    out = []
+    for n in range(7, maxn + 1):
+        chain = [(i, i + 1) for i in range(n - 1)]
+        out.append((n, chain))
+        out.append((n, chain[::-1]))
+        if n % 3 == 0:
+            spine = n - n // 3
+            comb = [(i, i + 1) for i in range(spine - 1)] + [(3 * k, spine + k) for k in range(n - spine) if 3 * k < spine]
+            out.append((spine + len([k for k in range(n - spine) if 3 * k < spine]), comb))
+            out.append((n, chain + [(i, i + 3) for i in range(0, n - 3, 4)]))
+    return out
+
+
+def lp_deep_ob(tier):
+    q = tier == "quick"
+    maxn = 20 if q else 40
+    cubes = []
+    for n, el in deep_dags(maxn):
+        c = {"N": n, "M": len(el)}
+        for i, (f, t) in enumerate(el):
+            c["ef[%d]" % i], c["et[%d]" % i] = f, t
+        cubes.append(c)
+    return dict(name="longest-path-kernel-deep", pkg="internal/phase2", func="Harness_LP", consts={}, cubes=cubes, enctimeout=200, qtimeout=60, loop=256, depth=64, validate_cubes=2,
+                bounds="real LongestPath.Process on deep structured DAGs with 7..%d nodes (chains in both edge orders, combs, chains with shortcut edges: "
+                       "depth passes the slice-capacity boundaries 8, 16%s); symbolic IsReversed flags" % (maxn, "" if q else ", 32"))
+
+
 def C11(tier):
     q = tier == "quick"
     sh = shapes(5, 3) + shapes(3, 4) if q else shapes(5, 4, selfloops=False) + shapes(4, 4) + shapes(6, 4, selfloops=False) + edge_lists(4, 5, connected=True)
     obs = [layout_ob("layout-lp-min-layers", "Harness_E_C11", sh, {"P1": [0, 1]},
                      consts={"P2": 1, "P4": 1, "P5": 0, "SZ": 0, "LSFIX": 1, "NSFIX": 1},
                      bounds="canonical edge lists (%s) x {greedy,dfs} x longest-path layering" % nm(q, "N<=5 M<=3 and N<=3 M<=4", "N<=5 M<=4 loop-free, N<=4 M<=4 with self-loops, N<=6 M<=4 loop-free, connected loop-free N=4 M=5")),
-           lp_kernel_ob(tier)]
+           lp_kernel_ob(tier), lp_deep_ob(tier)]
     return dict(obligations=obs)
 
 
@@ -661,6 +691,16 @@ def C18(tier):
                      consts={"P1": 0, "P5": 2, "SZ": 2}, bounds="canonical edge lists x {SinkColoring,VAlign} x {NS,LP}: layout with and without a recording monitor; " + SYMB),
            layout_ob("monitor-does-not-change-layout-bk", "Harness_E_C18a", shapes(3, 3) if q else shapes(4, 4, selfloops=False, connected=True), {"BK": [-1, 0, 3], "P5": [1, 3]},
                      consts={"P1": 0, "P2": 0, "P4": 2, "SZ": 5, "NSFIX": 10, "LSFIX": 20}, loop=96, bounds="canonical edge lists x Brandes-Koepf (balanced / forced) x {straight,ortho}, concrete heterogeneous sizes"),
+           layout_ob("monitor-does-not-change-layout-routers", "Harness_E_C18a", shapes(3, 3, selfloops=False, connected=True) if q else shapes(4, 4, selfloops=False, connected=True),
+                     {"P5": [0, 1, 3], "P4": [4, 1]},
+                     consts={"P1": 0, "P2": 0, "SZ": 5, "NSFIX": 10, "LSFIX": 20}, loop=192, enctimeout=200,
+                     bounds="connected loop-free canonical edge lists x {no routing, straight, ortho} x {SinkColoring,VAlign}, concrete heterogeneous sizes: layout with and "
+                            "without a recording monitor"),
+           layout_ob("monitor-does-not-change-layout-splines", "Harness_E_C18a", shapes(3, 3, selfloops=False, connected=True) if q else shapes(4, 3, selfloops=False, connected=True),
+                     {"P4": [4, 1]},
+                     consts={"P1": 0, "P2": 0, "P5": 4, "SZ": 5, "NSFIX": 10, "LSFIX": 20}, loop=192, enctimeout=200, validate_cubes=0,
+                     bounds="connected loop-free canonical edge lists N<=%s M<=3 x spline routing x {SinkColoring,VAlign}, concrete heterogeneous sizes: layout with and without a recording "
+                            "monitor (spline routing runs in the engine's real-arithmetic model on both sides - its points differ from the float run in the last digits, so no translator validation here; a difference is confirmed natively)" % nm(q, 3, 4)),
            dict(name="monitor-histories", pkg=".", func="Harness_E_C18b", consts=dict(OPT_DEFAULT, K=K),
                 cubes=[dict(shape_cube(s), **h) for s in small for h in hist],
                 bounds="all histories of %d calls, each one of {empty graph (panics), self-looped node, one edge, a 3-node graph} x {own monitor, none}; "
